@@ -7,6 +7,7 @@ package main
 // (truth / concretize in path.go).
 
 import (
+	"time"
 	"fmt"
 	"go/token"
 	"go/types"
@@ -782,6 +783,10 @@ func (in *interp) runFrame(fr *frame) {
 			in.path.instrs += int64(len(b.Instrs))
 			if in.path.instrs > in.cfg.maxInstrs {
 				panic(in.abort(abortBudget, "instruction budget exceeded"))
+			}
+			in.path.ticks++
+			if in.path.ticks&1023 == 0 && time.Since(in.path.start) > in.cfg.pathBudget {
+				panic(in.abort(abortBudget, "per-path wall-clock budget exceeded"))
 			}
 		}
 		in.stats.Instrs += int64(len(b.Instrs))
